@@ -1,6 +1,7 @@
 package main
 
 import (
+	"go/token"
 	"fmt"
 	"go/ast"
 	"go/constant"
@@ -22,6 +23,7 @@ var queueLinkFields = map[string]bool{"ParentQueue": true}
 
 func runC08(c *Ctx) {
 	borrow(c, "O7", "C13", "O5", "Commit does not call Discard", "undoing already committed allocations fires the deallocate handlers: the queue and its ancestors are under-counted while the pods get bound")
+	borrow(c, "O9", "C13", "O8", "plugin handlers fire after the job and node were updated", "the queue counters are charged with the task's accepted resources, which the node update computes")
 	borrow(c, "O8", "C03", "O5", "only active-allocated pods are eviction candidates", "evicting a pod that is already releasing subtracts resources from the queue that were never added")
 
 	p, fx := c.P, c.Fx
@@ -207,6 +209,38 @@ func runC08(c *Ctx) {
 			c.Check(ok, "O4", "RET", fmt.Sprintf("%s: over ⇔ %s < %s + request (path#%d)", funcKey(cmp), ck.limitField, ck.usedField, i), rp.Pos, d, fmt.Sprintf("the %s comparison answers 'over' without the exact test %s < %s + request (equality must be admitted, any excess refused)", ck.what, ck.limitField, ck.usedField))
 		}
 		c.Floor("O4", "RET over paths of "+ck.cmp, len(paths), 1)
+		// a resource is left uncompared only when its limit is the "unlimited" constant or nothing of it is requested
+		var cmpInstr ssa.Instruction
+		for _, in := range instrsIn(cmp, func(in ssa.Instruction) bool {
+			bo, ok := in.(*ssa.BinOp)
+			return ok && bo.Op == token.LSS && termOf(bo.X).lastField() == ck.limitField
+		}) {
+			cmpInstr = in
+		}
+		if c.Check(cmpInstr != nil, "O4", "MPT", funcKey(cmp)+": the limit comparison exists", cmp.Pos(), ck.limitField+" < "+ck.usedField+" + request", "the comparison "+ck.limitField+" < "+ck.usedField+" + request was not found") {
+			ok, path := everyIterationPasses(cmpInstr, func(x ssa.Instruction) bool { return x == cmpInstr }, func(from, to *ssa.BasicBlock) bool {
+				excused := fx.edgeEstablishes(from, to, func(f Fact) bool {
+					if f.T.Op != "bin" || len(f.T.Args) != 2 {
+						return false
+					}
+					a, b := f.T.Args[0], f.T.Args[1]
+					// limit == Unlimited (−1)
+					if f.Pol && f.T.Name == "==" && a.lastField() == ck.limitField && b.Op == "const" && strings.HasPrefix(b.Name, "-1") {
+						return true
+					}
+					// nothing requested: request == 0
+					if f.Pol && f.T.Name == "==" && b.String() == "const:0" && a.Op == "extract" && a.Args[0].Op == "lookup" {
+						return true
+					}
+					return false
+				}) || fx.edgeEstablishes(from, to, func(f Fact) bool {
+					// the resource is absent from the request
+					return !f.Pol && f.T.Op == "extract" && f.T.Name == "1" && f.T.Args[0].Op == "lookup"
+				})
+				return !excused
+			})
+			c.Check(ok, "O4", "MPT", funcKey(cmp)+": a resource is skipped only if its "+ck.what+" is unlimited or nothing of it is requested", instrPos(cmpInstr), "every other iteration reaches the comparison", "a resource can be left uncompared for another reason ("+pathStr(path)+") — e.g. a "+ck.what+" of 0 treated as 'none': workloads are admitted past a configured "+ck.what+" of zero")
+		}
 		// the "not over" answer is only given after the resource loop (an in-loop false return would skip resources)
 		for _, b := range cmp.Blocks {
 			ret, ok := b.Instrs[len(b.Instrs)-1].(*ssa.Return)
